@@ -2650,8 +2650,13 @@ void start_new_file (int fd, const char* pre_text) {
 
   if (pre_text)
     {
-      /* [NEOLITH-EXTENSION] insert any text before the actual file contents */
-      add_input (pre_text);
+      /* [NEOLITH-EXTENSION] insert any text before the actual file contents.
+       * It has to fit in front of outptr in the head buffer: the refill_buffer() below assumes that at most
+       * one partial line is pending and cannot cope with a linked buffer full of unread text. */
+      if (strlen (pre_text) + 5 > (size_t)(outptr - cur_lbuf->buf))
+        lexerror ("pre_text too long");
+      else
+        add_input (pre_text);
     }
   
   /*
